@@ -56,3 +56,8 @@ def lemma_ideal_mono(a, b, c, r):
 def lemma_divmod_any(d, b):
     # requires b >= 1 (any integer d) ; ensures d == b * (d // b) + d % b, 0 <= d % b < b  (Python's floor division)
     pass
+
+
+def lemma_divmod_negdiv(d, b):
+    # requires b <= -1 (any integer d) ; ensures d == b * (d // b) + d % b, b < d % b <= 0  (Python's floor division)
+    pass
